@@ -105,6 +105,18 @@ def generate(seed: int, tier: str) -> dict:
             tag += 1
             events.append({"ev": "scope_edit", "d": d, "path": "@" * rng.choice([1, 1, 2]) + rng.choice(scopegen.NAMES), "value": str((base + d) * 1000 + 900 + tag)})
             held[d] = 0
+        elif r < 0.785:
+            # a let binding is *renamed* between two lookups of one object (removed, another name added: the layer has
+            # as many members as before): the name must now mean the next binding outwards, or nothing
+            tag += 1
+            probe = rng.choice(docs[d]["probes"])
+            events.append({"ev": "resolve", "d": d, "probe": probe})
+            events.append({"ev": "scope_rename", "d": d, "at": "@" * rng.choice([1, 1, 2]), "old": rng.choice(scopegen.NAMES), "new": rng.choice(["z1", "z2"]),
+                           "value": str((base + d) * 1000 + 900 + tag), "via": rng.choice(["cli", "mapping"])})
+            events.append({"ev": "resolve", "d": d, "probe": probe})
+            for p2 in docs[d]["probes"][:2]:
+                events.append({"ev": "resolve", "d": d, "probe": p2})
+            held[d] = 0
         elif r < 0.82:
             events.append({"ev": "inherit_copy", "d": d, "name": rng.choice(scopegen.NAMES)})
         elif r < 0.92:
@@ -339,7 +351,7 @@ def execute(case: dict):
                 bump("probe:resolved_through_held_handle")
                 check_resolution(d, ".".join(probe) + " (held) -> " + str(info.get("ref_name")), cur, exp, step, info.get("wrappers"))
                 continue
-            if kind in ("assign", "scope_edit"):
+            if kind in ("assign", "scope_edit", "scope_rename"):
                 # an edit may replace the objects a handle points into: handles taken before it are dropped
                 holds[d] = []
             if kind in ("resolve", "assign"):
@@ -391,6 +403,24 @@ def execute(case: dict):
                     bump("scope_edit:ok")
                 except Exception:  # noqa: BLE001 - refusals are C08's business
                     bump("scope_edit:refused")
+            elif kind == "scope_rename":
+                from nix_manipulator.cli.manipulations import remove_value
+
+                try:
+                    if ev["via"] == "cli" or ev["at"] != "@":
+                        remove_value(src, ev["at"] + ev["old"])
+                        set_value(src, ev["at"] + ev["new"], ev["value"])
+                    else:
+                        holder = src.expr
+                        for _ in range(8):
+                            if getattr(holder, "scope", None):
+                                break
+                            holder = getattr(holder, "output", None) or holder
+                        del holder.scope[ev["old"]]
+                        holder.scope[ev["new"]] = int(ev["value"])
+                    bump("scope_rename:ok")
+                except Exception:  # noqa: BLE001 - the name is not bound in that layer (or there is no such layer)
+                    bump("scope_rename:refused")
             elif kind == "inherit_copy":
                 name = ev["name"]
                 dec = reader.decode(current)
